@@ -37,6 +37,14 @@ def build(profile="dev"):
 def run(cmd, case, profile="dev", timeout=120):
     """Run one case (or {'batch': [...]}) through the real code. Returns parsed JSON, or
     {'crash': ...} when the process died (abort / timeout)."""
+    from . import native_cli
+    if cmd in native_cli.PY_CMDS:
+        if isinstance(case, dict) and "batch" in case:
+            return {"results": [native_cli.PY_CMDS[cmd](c, profile) for c in case["batch"]]}
+        try:
+            return native_cli.PY_CMDS[cmd](case, profile)
+        except subprocess.TimeoutExpired:
+            return {"crash": "timeout", "timeout": True}
     exe = build(profile)
     os.makedirs(OUT, exist_ok=True)
     fd, path = tempfile.mkstemp(suffix=".json", dir=OUT)
